@@ -87,6 +87,22 @@ def reg_bytes(dev, family, addr, nbytes):
     return dev.get_bytes(addr, (nbytes + 1) // 2)[:nbytes]
 
 
+LABEL_CLASSES = ("Enum", "EnumH", "EnumL", "Enum2", "EnumBitmap4", "EnumBitmap22")
+
+
+def labels_of(sn):
+    """The label table of a label sensor (specification data of the library's tables).  Looked up by its usual
+    private name first, then structurally (a dict attribute with integer keys), so that a rename does not blind or
+    crash the oracle; None if the sensor has no such table."""
+    lab = getattr(sn, "_labels", None)
+    if isinstance(lab, dict):
+        return lab
+    for v in vars(sn).values():
+        if isinstance(v, dict) and v and all(isinstance(k, int) for k in v):
+            return v
+    return None
+
+
 def expected_plain(dev, family, sensors):
     """id -> reference value for all table sensors whose class has a documented own-bytes decoding."""
     exp = {}
@@ -99,7 +115,10 @@ def expected_plain(dev, family, sensors):
         if len(b) < w:
             exp[sn.id_] = ("short", cls)
             continue
-        exp[sn.id_] = (R.decode(cls, b, scale=getattr(sn, "scale", None), labels=getattr(sn, "_labels", None)), cls)
+        labels = labels_of(sn)
+        if cls in LABEL_CLASSES and labels is None:
+            continue   # no table found on the definition object: nothing to compare with
+        exp[sn.id_] = (R.decode(cls, b, scale=getattr(sn, "scale", None), labels=labels), cls)
     return exp
 
 
@@ -150,7 +169,7 @@ def pair_expectations(sensors, data):
         if not sn.id_.endswith("_label"):
             continue
         base = sn.id_[:-6]
-        labels = getattr(sn, "_labels", None)
+        labels = labels_of(sn)
         if labels is None or base not in ids or base not in data or sn.id_ not in data:
             continue
         if type(sn).__name__.startswith("EnumBitmap") or type(ids[base]).__name__ in ("Long",):
@@ -174,7 +193,7 @@ def derived_expectations(dev, family, sensors, goodwe_const, alts=None):
     for sn in sensors:
         cls = type(sn).__name__
         if sn.id_.endswith("_label") and cls in ("Enum", "EnumH", "EnumL", "Enum2"):
-            labels = getattr(sn, "_labels", None)
+            labels = labels_of(sn)
             if labels is None:
                 continue
             base = ids.get(sn.id_[:-6])
@@ -182,11 +201,11 @@ def derived_expectations(dev, family, sensors, goodwe_const, alts=None):
             b = own_bytes(dev, family, sn, w)
             exp[sn.id_] = R.decode(cls, b, labels=labels, enum_signed=True)   # C13: lookup of the code as reported
         elif cls == "EnumBitmap4":
-            labels = getattr(sn, "_labels", None)
+            labels = labels_of(sn)
             if labels is not None:
                 exp[sn.id_] = R.decode(cls, own_bytes(dev, family, sn, 4), labels=labels)
         elif cls == "EnumBitmap22":
-            labels = getattr(sn, "_labels", None)
+            labels = labels_of(sn)
             lo_off = getattr(sn, "_offsetL", None)
             if labels is not None and lo_off is not None:
                 exp[sn.id_] = R.bitmap22(rb(sn.offset, 2), rb(lo_off, 2), labels)
